@@ -14,6 +14,22 @@ NA = {
 }
 
 CHECKS = {
+ "C11": dict(level="fault_enumeration", engine="faultsim", design="4/C11",
+   text="per sampled assignment item the fault-free run is compared with a plain-Python reference edit on a shadow graph; then every collaborator point (accessors, mutators, factories, value specs) is failed in turn with an Exception and a BaseException class, and for a seeded share of items every line event inside glom is a crash point (all of them up to 300/800): error => target identical (ids, contents, sharing); otherwise state before or complete, never partial.",
+   note="trusts: models/pathedit.py as the corresponding plain-Python assignment; collaborators fail atomically; wildcard assignments are not required to be atomic",
+   technique="deterministic simulation with enumerated crash points (collaborator faults + sys.settrace line crashes), reference-model + snapshot oracle"),
+ "C12": dict(level="fault_enumeration", engine="faultsim", design="4/C12",
+   text="as C11 with del/delattr on the shadow graph: present / cleanly missing final / missing parent / other classification before the run, all spellings of one address compared, every collaborator point and (seeded share) every line event as crash points.",
+   note="trusts: models/pathedit.py as Python's del; addresses that are neither present nor cleanly missing are don't-care between an error and a silent no-op under ignore_missing (target must be unchanged)",
+   technique="deterministic simulation with enumerated crash points, reference-model + snapshot oracle"),
+ "C13": dict(level="exploration", engine="histsim", design="4/C13",
+   text="seeded histories of registry operations (register / look-up / memo drop / new Glommer) over per-run class families on default, Glommer and bare registries, with the iteration order of register_op's set of types owned by the simulator; observed handler must belong to a minimal eligible registered type of a reference registry model; each history re-run in 3 variants (registration order, set order, no intermediate look-ups + memo dropped) whose final look-up batteries must agree; fresh default Glommer vs cold module-level glom on a fixed battery.",
+   note="trusts: models/registry.py as the reading of 'nearest registered type' (unrelated minimal candidates unranked, only stable); handler identity observed through TargetRegistry.get_handler and confirmed end-to-end for tagged handlers",
+   technique="deterministic simulation of registration/look-up histories with a controlled set-iteration-order seam, reference-model oracle + variant stability"),
+ "C17": dict(level="exploration", engine="streamsim", design="4/C17",
+   text="seeded Iter/Invoke builder chains over counted, fault-injectable sources (finite and infinite): every-prefix consumers, two live iterators pulled alternately, builder histories, source fault at item j, abandoned consumers; outputs equal the itertools/boltons composition, pulls bounded by the reference pulls + window slack, step budget on infinite sources, base specs unchanged.",
+   note="trusts: itertools and boltons iterutils as the definition of the stages; stage callbacks total and SKIP/STOP-free",
+   technique="deterministic simulation of lazy pipelines under consumer schedules and source faults, reference-composition oracle with pull counting"),
  "C20": dict(level="exploration", engine="schedsim", design="4/C20",
    text="seeded search over schedules (baton-passing threads, switches at collaborator points and at source-line events inside glom) and re-entrant nestings; every task compared with the same recipe run alone in a cold private instance (outcome incl. full trace text, and the task's own collaborator-event log). A clean batch is evidence, not proof.",
    note="trusts: line-granular (not bytecode-granular) pre-emption; the isolated run of the same code as reference; sys.settrace semantics of CPython 3.12",
